@@ -15,7 +15,14 @@ TB = [
 ]
 AS = ["PARTIAL by nature: the frame theorem is relative to the alias table; the monitor does the detecting",
       "read-only calls are executed twice in the adapter; float results compared bit-exactly (same process, same inputs)"]
-RULE = ("round 6: constructors that take EXISTING views as input (MultiIndex.load over views of any ordered kind with labels / None and "
+RULE = ("periphery round: several ROUTES to one modelled op under a per-case counter the model does not see (merge / += / __iadd__, + / |, & / "
+        "intersection, copy() / copy.copy / __copy__, to_mutable / __copy__, add_hash / add_many, add_sequence / add_kmer, name / _name setters, "
+        "pickle / deepcopy, three ways to build a SourmashSignature and a LinearIndex, search() / find(), signatures() / signatures_with_location()); "
+        "after EVERY op the adapter asserts that two ways of reading the same object agree (A=: len vs iteration vs .hashes vs get_mins, md5 of a signature "
+        "vs md5 of its sketch, len(view) vs signatures(), signatures() vs signatures_with_location(), manifest rows vs the signatures they describe) and "
+        "that every result object an earlier call returned still reads the same (K=: search / prefetch / gather results, SearchResult / PrefetchResult / "
+        "GatherResult dictionaries, manifests, CounterGather); sketch-level add_sequence / add_protein modelled; num sketches; result classes; "
+        "CLI helpers (get_manifest, _summarize_manifest, apply_picklist_and_pattern) on live views; round 6: constructors that take EXISTING views as input (MultiIndex.load over views of any ordered kind with labels / None and "
         "prepend_location, LinearIndex / SBT / LCA_Database built from view.signatures(), StandaloneManifestIndex over an exported manifest, "
         "MultiIndex.load_from_path / _directory / _pathlist over a saved view, CounterGather from a view driven by peek/consume, SBT.combine, index "
         "objects wrapped around a live manifest, get_manifest); the dump holds the LOCATIONS every view reports (Index.location, "
